@@ -690,6 +690,10 @@ def main(tier, replay=None):
     if replay:
         return do_replay(run, replay)
     proof_ok = run.proof_stage()
+    import translate_stage
+    tr_diag = translate_stage.translator_obligation_diag(run, parts=("split",))
+    if tr_diag["status"] != "ok":
+        run.notes.append("translator obligation (split): " + json.dumps(translate_stage.replay_fields_diag(tr_diag))[:600])
     # second tie: the linear-optics core is re-translated from REPO's source and proved equal to Optics/Maps.v (Gen/MapsGenEquiv.v)
     import translate_stage
     tr = translate_stage.translator_obligation(run)
@@ -800,6 +804,9 @@ def main(tier, replay=None):
     elif tr["status"] != "ok":
         # the source no longer translates to the proved model; none of this run's oracles found a failing input
         run.violation(translate_stage.replay_fields(tr), no_input=True)
+    elif tr_diag["status"] != "ok":
+        # the source no longer translates to the proved model; none of this run's oracles found a failing input
+        run.violation(translate_stage.replay_fields_diag(tr_diag), no_input=True)
     elif not proof_ok:
         run.violation({"kind": "proof", "broken": run.proof_problem}, no_input=True)
     return run.finish("proof")
